@@ -1872,6 +1872,26 @@ func propC16(c *Ctx) {
 		if string(onto) != id.URN() {
 			c.Fail("C16.uu.urn.prefix", line, "%q vs %q", onto, id.URN())
 		}
+		// the same under a replaced Formatter variable (black-box round 11: URN routed through the variable): the URN is
+		// still the prefix followed by a plain rendering — the stock one or, on the other reading, the replacement's
+		if i < 160 {
+			for k, repl := range []func([]byte, uu.ID, uu.Format) ([]byte, error){
+				func(buf []byte, v uu.ID, f uu.Format) ([]byte, error) { // upper-casing, ignores the URN flag
+					b, err := uu.DefaultFormatter(nil, v, 0)
+					return append(buf, bytes.ToUpper(b)...), err
+				},
+				func(buf []byte, v uu.ID, f uu.Format) ([]byte, error) { return buf, errors.New("scripted") },
+			} {
+				old := uu.Formatter
+				uu.Formatter = repl
+				got, viaVar := id.URN(), id.String()
+				uu.Formatter = old
+				c.Check("")
+				if got != "urn:uuid:"+string(plain) && got != "urn:uuid:"+viaVar {
+					c.Fail("C16.uu.urn.formatter-variable", line, "with replacement %d in uu.Formatter URN() = %q, want the prefix urn:uuid: followed by the plain rendering %q (or the replacement's %q)", k, got, plain, viaVar)
+				}
+			}
+		}
 	}
 	c.NT(int64(nu))
 }
